@@ -334,7 +334,14 @@ func tour(edgesPath string, names []string, lookups bool, anchorEvery int, sampl
 		}
 	}
 	lastAnchor := 0
+	maxSteps := 12*len(es) + 1000
 	for remaining > 0 {
+		if steps > maxSteps || desync > 200 {
+			// the real store keeps leaving the model's graph (every such step is rejected by the trace
+			// spec): stop touring, what was recorded is enough for a verdict
+			fmt.Fprintf(os.Stderr, "storedrv: tour stopped after %d steps, %d desynchronisations, %d edges left\n", steps, desync, remaining)
+			break
+		}
 		if anchorEvery > 0 && tw.N-lastAnchor >= anchorEvery {
 			anchor(st, names, "Anchor")
 			lastAnchor = tw.N
